@@ -104,6 +104,62 @@ def observe(recipe, backend):
                 pa = PARENT.get(t)
                 if m == ["ok", True] and pa is not None and v["mem"].get(pa) == ["ok", False]:
                     add("C16", "not-nested:%s<%s" % (t, pa), "array is in %s but not in its parent %s" % (t, pa))
+    # C02 (numpy only: the property excludes Python lists): at every type that contains the sequence, at most one
+    # outgoing relation (identity child's membership test or inference relation's test) accepts it
+    if backend == "numpy":
+        accepted = {}
+        for t in types:
+            pa = PARENT.get(str(t))
+            if pa is not None and v["mem"].get(str(t)) == ["ok", True]:
+                accepted.setdefault(pa, []).append(str(t))
+            for r in t.get_relations():
+                if r.inferential and str(r.related_type) in v["mem"] and v["mem"].get(str(r.related_type)) == ["ok", True]:
+                    if outcome(lambda: bool(r.is_relation(x, {}))) == ["ok", True]:
+                        accepted.setdefault(str(r.related_type), []).append(str(t))
+        for node, acc in accepted.items():
+            acc = sorted(set(acc))
+            if v["mem"].get(node) == ["ok", True] and len(acc) > 1:
+                add("C02", "overlap:%s:%s" % (node, "+".join(acc[:2])), "at %s both %s and %s accept the sequence (all accepting: %s)" % (node, acc[0], acc[1], acc))
+    # ... and the answer does not depend on the order in which the types are supplied (C02; for lists, which C02
+    # excludes, an order-dependent answer is checked against C15's statement directly: the answer of the parent-closed
+    # sub-typeset spanned by one answer must lie on the other order's path / be a source of its inferred type)
+    for alt_order in (list(reversed(order)), order[1::2] + order[0::2]):
+        ts2 = typeset_for(alt_order)
+        for k, fn in (("detect", lambda: str(ts2.detect_type(x))), ("infer", lambda: str(ts2.infer_type(x)))):
+            w = outcome(fn)
+            if w != v[k] and w[0] == "ok" and v[k][0] == "ok":
+                if backend == "numpy":
+                    add("C02", "order:%s:%s|%s" % (k, min(w[1], v[k][1]), max(w[1], v[k][1])),
+                        "%s_type depends on the supply order of the types: %s vs %s" % (k, v[k][1], w[1]))
+                    continue
+                # A = parent closure of the first answer (a parent-closed subset of B = the same types, other order)
+                # (the types on the first order's path and their identity ancestors)
+                p1 = outcome(lambda: [str(q) for q in (ts.detect(x) if k == "detect" else ts.infer(x))[1]])
+                a_names = []
+                for t in (p1[1] if p1[0] == "ok" else [v[k][1]]):
+                    while t is not None and t not in a_names:
+                        a_names.append(t)
+                        t = PARENT[t]
+                tsa = typeset_for(sorted(a_names))
+                if k == "detect":
+                    da = outcome(lambda: str(tsa.detect_type(x)))
+                    pb = outcome(lambda: [str(q) for q in ts2.detect(x)[1]])
+                    if da[0] == "ok" and pb[0] == "ok":
+                        deepest = [q for q in pb[1] if q in a_names][-1]
+                        if da[1] != deepest:
+                            add("C15", "detect-not-projection:%s|%s" % (min(da[1], deepest), max(da[1], deepest)),
+                                "A=%s detects %s; B=CompleteSet (another supply order) has detection path %s whose deepest type in A is %s"
+                                % (sorted(a_names), da[1], pb[1], deepest))
+                else:
+                    import networkx as nx
+                    ia = outcome(lambda: str(tsa.infer_type(x)))
+                    if ia[0] == "ok":
+                        g = ts2.relation_graph
+                        byname = {str(q): q for q in g.nodes}
+                        if not nx.has_path(g, byname[ia[1]], byname[w[1]]):
+                            add("C15", "infer-not-reachable:%s|%s" % (min(ia[1], w[1]), max(ia[1], w[1])),
+                                "A=%s infers %s; B=CompleteSet (another supply order) infers %s, which is not reachable from it along B's relations"
+                                % (sorted(a_names), ia[1], w[1]))
     # infer
     inf = outcome(lambda: ts.infer(x))
     if snap(x) != s0:
@@ -163,6 +219,45 @@ def observe(recipe, backend):
         for k in ("detect", "infer"):
             if w[k] != v[k] and w[k][0] == "ok" and v[k][0] == "ok":
                 add("C11", "%s:%s:%s|%s" % (kind, k, min(v[k][1], w[k][1]), max(v[k][1], w[k][1])), "%s changes %s_type: %s -> %s" % (kind, k, v[k][1], w[k][1]))
+    # C05 / C10: the caller edits the same container in place between two calls on the same typeset; the second answer
+    # must be that of the new contents (same as a fresh typeset on an equal fresh container), and when no coercion
+    # applies to the new contents the very same object comes back
+    if n >= 1:
+        x1 = build(recipe, backend)
+        _ = outcome(lambda: ts.infer(x1))
+        _ = outcome(lambda: ts.cast_to_inferred(x1))
+        edited = True
+        try:
+            if isinstance(x1, list):
+                x1[:] = ["plain text %d" % i for i in range(len(x1))]
+            elif isinstance(x1, np.ndarray) and x1.dtype == object:
+                x1[:] = "plain text"
+            elif isinstance(x1, np.ndarray) and x1.dtype.kind == "f":
+                x1[:] = 1.5
+            elif isinstance(x1, np.ndarray) and x1.dtype.kind == "U":
+                x1[:] = "zz"
+            else:
+                edited = False
+        except Exception:
+            edited = False
+        if edited:
+            import copy as _copy
+            from visions.typesets import VisionsTypeset
+            from run_graph import BYNAME, ordered_sets
+            with ordered_sets():
+                fresh = VisionsTypeset([BYNAME[k] for k in order])
+            y1 = _copy.copy(x1)
+            want = outcome(lambda: [str(t) for t in fresh.infer(y1)[1]])
+            got = outcome(lambda: ts.infer(x1))
+            if got[0] == "ok" and want[0] == "ok":
+                gp = [str(t) for t in got[1][1]]
+                if gp != want[1]:
+                    add("C05", "stale-after-edit", "after an in-place edit the same typeset answers %s for contents a fresh typeset types as %s" % (gp, want[1]))
+                    add("C10", "stale-after-edit", "result depends on an earlier call on the same container: %s vs %s" % (gp, want[1]))
+                elif not any(PARENT[b] != a for a, b in zip(gp, gp[1:])):
+                    back = outcome(lambda: ts.cast_to_inferred(x1))
+                    if back[0] == "ok" and back[1] is not x1:
+                        add("C05", "stale-after-edit", "no coercion applies after the in-place edit but cast_to_inferred returned another object")
     return {"fails": fails, "infer": inf[1][1] and [str(t) for t in inf[1][1]] if inf[0] == "ok" else inf[1]}
 
 
@@ -177,6 +272,10 @@ NP_POOLS = {
     "td": [["nptd", 1], ["nptd", 5]],
     "obj": [["str", "a"], ["int", 1], ["bool", True], ["float", 1.5], ["none"], ["nan"], ["dt", "2020-01-01T00:00:00"],
             ["complex", 1, 0], ["list"], ["bytes", "ab"], ["str", "1"]],
+    # numpy scalars and pandas timestamps inside object arrays
+    "objnp": [["npint", 1, "int64"], ["npint", 3, "int32"], ["npint", 2, "uint8"], ["int", 1], ["none"], ["npfloat", 1.5], ["npfloat", 2.0],
+              ["npbool", True], ["bool", False], ["npstr", "a"], ["str", "b"], ["pyts", "2020-01-01"], ["dt", "2020-01-01T00:00:00"],
+              ["npdt", "2020-01-01"], ["float", 2.0]],
 }
 
 LIST_POOL = G.OBJ_POOL + [["none"], ["nan"], ["str", ""], ["str", "true"], ["str", "false"], ["str", "1.5"], ["str", "2"],
@@ -190,6 +289,16 @@ def _gv(r):
         return np.datetime64(r[1])
     if r[0] == "nptd":
         return np.timedelta64(r[1], "D")
+    if r[0] == "npint" and len(r) == 3:
+        return getattr(np, r[2])(r[1])
+    if r[0] == "npfloat":
+        return np.float64(r[1])
+    if r[0] == "npbool":
+        return np.bool_(r[1])
+    if r[0] == "npstr":
+        return np.str_(r[1])
+    if r[0] == "pyts":
+        return pd.Timestamp(r[1])
     return None
 
 
@@ -213,7 +322,14 @@ def gen(rng, backend):
             base = rng.choice(NP_POOLS["obj"])
             vals = [base if rng.random() < 0.8 else rng.choice(NP_POOLS["obj"]) for _ in range(n)]
         r = {"values": vals, "stream": "numpy:" + k}
-        if k == "obj" or rng.random() < 0.15:
+        if k == "objnp":
+            base = rng.choice(NP_POOLS["objnp"])
+            kind = base[0]
+            near = [b for b in NP_POOLS["objnp"] if b[0] in (kind, "none", {"npint": "int", "int": "npint", "npfloat": "float", "float": "npfloat",
+                                                                            "npbool": "bool", "bool": "npbool", "npstr": "str", "str": "npstr",
+                                                                            "pyts": "dt", "dt": "pyts"}.get(kind, kind))]
+            vals = [rng.choice(near) for _ in range(max(n, 1))]
+        if k in ("obj", "objnp") or rng.random() < 0.15:
             r["npdtype"] = "object"
         return r
     homog = rng.random() < 0.6
@@ -254,8 +370,18 @@ def run_backend(tier, seed, backend, n=None, nproc=16):
                         {"values": [["str", "no"], ["str", "yes"]], "stream": "corpus:fixed-F20"},
                         {"values": [["complex", 1, 0], ["complex", 2, 0]], "stream": "corpus:fixed-F19"},
                         {"values": [["nan"], ["str", "1+2j"]], "npdtype": "object", "stream": "corpus:fixed-F18n"},
-                        {"values": [["str", "nan"], ["str", "NaN"]], "stream": "corpus:all-nan-strings"}],
-              "list": [{"values": [["bool", False], ["str", "1.5"]], "stream": "corpus:F22b"},
+                        {"values": [["str", "nan"], ["str", "NaN"]], "stream": "corpus:all-nan-strings"},
+                        {"values": [["npint", 1, "int64"], ["none"], ["npint", 3, "int64"]], "npdtype": "object", "stream": "corpus:np-int-scalars"},
+                        {"values": [["int", 1], ["npint", 3, "int32"]], "npdtype": "object", "stream": "corpus:int-then-np-int"},
+                        {"values": [["pyts", "2020-01-01"], ["dt", "2020-01-01T00:00:00"]], "npdtype": "object", "stream": "corpus:timestamp-datetime"},
+                        {"values": [["bytes", "ab"], ["bytes", "c"]], "stream": "corpus:bytes-dtype"}],
+              "list": [{"values": [["bool", False], ["str", "1.5"]], "stream": "corpus:fixed-F22b"},
+                       {"values": [["float", 0.0], ["float", 0.0], ["float", 0.0]], "stream": "corpus:fixed-F34"},
+                       {"values": [["int", 0], ["int", 0]], "stream": "corpus:fixed-F34b"},
+                       {"values": [["dt", "2020-01-01T10:00:00"]], "stream": "corpus:fixed-F35"},
+                       {"values": [["td", 5]], "stream": "corpus:fixed-F35b"},
+                       {"values": [["str", "/a@b"]], "stream": "corpus:F12l"},
+                       {"values": [["str", ""], ["str", ""]], "stream": "corpus:empty-strings"},
                        {"values": [["str", "true"], ["str", "false"]], "stream": "corpus:fixed-F22a"}]}
     recipes = corpus.get(backend, []) + recipes
     chunks = [recipes[i::nproc] for i in range(nproc)]
